@@ -190,7 +190,25 @@ pub fn solve_milp_lp_problem_with(
             #[cfg(rooc_verif)]
             verif_hooks::record_raw_status(s.status());
             let status = match s.status() {
-                microlp::Status::Optimal => SolutionStatus::Optimal,
+                microlp::Status::Optimal => {
+                    // microlp stops at the requested relative gap measured on its own
+                    // objective, which lacks the model's constant term: the result is only
+                    // optimal when the reported value (constant included) is within that
+                    // gap of the proven bound, otherwise it is merely feasible
+                    let offset = lp.objective_offset();
+                    match (options.mip_gap, s.stats().best_bound) {
+                        (Some(gap), Some(bound)) if gap > 0.0 => {
+                            let value = s.objective() + offset;
+                            let distance = (value - (bound + offset)).abs();
+                            if distance <= gap * value.abs().max(1e-10) {
+                                SolutionStatus::Optimal
+                            } else {
+                                SolutionStatus::Feasible
+                            }
+                        }
+                        _ => SolutionStatus::Optimal,
+                    }
+                }
                 microlp::Status::Feasible => SolutionStatus::Feasible,
                 microlp::Status::Interrupted => return Err(SolverError::LimitReached),
             };
